@@ -1,5 +1,126 @@
-(* C16 stub, extended below *)
-From Coq Require Import Reals List Arith Lia.
-From OSU.Model Require Import Timeseries.
-Theorem nfft_even_le : forall n, (nfft n <= n)%nat /\ (n - nfft n <= 1)%nat.
-Proof. intros n. unfold nfft. pose proof (Nat.div_mod n 2). pose proof (Nat.mod_upper_bound n 2). lia. Qed.
+(* C16  Synthetic time series carry the spectrum's variance.
+   Only statements; every proof is [exact lemma].  Model: OSU.Model.Timeseries
+   ([surface_timeseries c fs n xp cols phases]: component, sampling rate, requested length, frequency grid of
+   the spectrum, its direction columns (direction, direction step, E per frequency), numpy's phases as
+   INPUT; None = the code raises).  A 1D spectrum is [cols1d e]; a 2D spectrum is [cols2d dirs ecols]. *)
+From Coq Require Import Reals List Arith.
+From OSU.Model Require Import WindEstimate Timeseries.
+From OSU.Lib Require Import TsAux.
+From OSU.Proofs Require Import Timeseries.
+Import ListNotations.
+Open Scope R_scope.
+
+(* nfft = 2*(n/2): even, n or n-1 *)
+Theorem nfft_even_le : forall n, Nat.even (nfft n) = true /\ (nfft n <= n)%nat /\ (n - nfft n <= 1)%nat.
+Proof. exact nfft_spec. Qed.
+
+(* as many samples as the time axis (both nfft), for every component, spectrum and length *)
+Theorem length_series_eq_time : forall c fs n xp cols phases t s,
+  surface_timeseries c fs n xp cols phases = Some (t, s) ->
+  length t = nfft n /\ length s = nfft n.
+Proof. exact length_series_eq_time. Qed.
+
+(* the code raises exactly for requested lengths below 4 (fewer than two FFT bins) *)
+Theorem raises_iff_short : forall c fs n xp cols phases,
+  surface_timeseries c fs n xp cols phases = None <-> (n < 4)%nat.
+Proof. exact raises_iff_short. Qed.
+
+(* time axis: t_i = i/fs, spacing 1/fs *)
+Theorem time_samples : forall fs n i, fs <> 0 -> (i < nfft n)%nat ->
+  nth i (time_axis fs n) 0 = INR i / fs.
+Proof. exact time_nth. Qed.
+
+Theorem time_spacing : forall fs n i, fs <> 0 -> (S i < nfft n)%nat ->
+  nth (S i) (time_axis fs n) 0 - nth i (time_axis fs n) 0 = 1 / fs.
+Proof. exact time_spacing. Qed.
+
+(* FFT bins: f_k = k fs/nfft, and frequency_step of that grid is fs/nfft in EVERY bin (end bins included) *)
+Theorem frequency_grid : forall fs n k, (k < nfft n / 2)%nat ->
+  nth k (fft_freqs fs n) 0 = INR k * fs / INR (nfft n).
+Proof. exact freq_nth. Qed.
+
+Theorem frequency_step_of_grid : forall fs n k, (4 <= n)%nat -> (k < nfft n / 2)%nat ->
+  length (frequency_step (fft_freqs fs n)) = (nfft n / 2)%nat /\
+  nth k (frequency_step (fft_freqs fs n)) 0 = fs / INR (nfft n).
+Proof. exact fft_frequency_step. Qed.
+
+(* |transfer factor|^2 per component: 1, w^2, cos^2, sin^2, w^2 cos^2, w^2 sin^2 *)
+Theorem component_factors : forall w th,
+  factor_abs2 CZ w th = 1 /\
+  factor_abs2 CW w th = w ^ 2 /\
+  factor_abs2 CX w th = (cos th) ^ 2 /\
+  factor_abs2 CY w th = (sin th) ^ 2 /\
+  factor_abs2 CU w th = w ^ 2 * (cos th) ^ 2 /\
+  factor_abs2 CV w th = w ^ 2 * (sin th) ^ 2.
+Proof. exact component_factors. Qed.
+
+Theorem horizontal_split : forall w th,
+  factor_abs2 CX w th + factor_abs2 CY w th = factor_abs2 CZ w th /\
+  factor_abs2 CU w th + factor_abs2 CV w th = factor_abs2 CW w th.
+Proof. exact horizontal_split. Qed.
+
+(* |sqrt(area E/2) e^{i phase} factor|^2 = area E/2 |factor|^2 *)
+Theorem amplitude_abs2 : forall c area e ph w th, 0 <= area * e ->
+  let '(re, im) := amp c area e ph w th in
+  re * re + im * im = area * e / 2 * factor_abs2 c w th.
+Proof. exact amp_abs2. Qed.
+
+(* scaling the spectrum by c >= 0 scales the series by sqrt c (same phases, same time axis) *)
+Theorem series_scale : forall cmp fs n xp cols phases c, 0 <= c ->
+  surface_timeseries cmp fs n xp (map (scale_col c) cols) phases =
+  option_map (fun ts : list R * list R => (fst ts, map (Rmult (sqrt c)) (snd ts)))
+             (surface_timeseries cmp fs n xp cols phases).
+Proof. exact series_scale. Qed.
+
+Theorem scale_1d : forall c e, cols1d (map (Rmult c) e) = map (scale_col c) (cols1d e).
+Proof. exact cols1d_scale. Qed.
+
+Theorem scale_2d : forall c dirs ecols,
+  cols2d dirs (map (map (Rmult c)) ecols) = map (scale_col c) (cols2d dirs ecols).
+Proof. exact cols2d_scale. Qed.
+
+(* orthogonality over a full period (the core of Parseval): for 1 <= k, l and k + l < N,
+   sum_{i<N} (a cos(k w_i) + b sin(k w_i)) (a' cos(l w_i) + b' sin(l w_i)) = [k = l] N/2 (a a' + b b'),
+   w_i = 2 pi i / N *)
+Theorem harmonics_orthogonal : forall N k l a b a' b', (1 <= k)%nat -> (1 <= l)%nat -> (k + l < N)%nat ->
+  sumN (fun i => uterm N k a b i * uterm N l a' b' i) N =
+  if Nat.eqb k l then INR N / 2 * (a * a' + b * b') else 0.
+Proof. exact uterm_inner. Qed.
+
+(* Parseval for nfft * irfft(X, n = nfft) written as its defining real sum, ANY coefficients, any length:
+   the population variance of the 2M samples is sum_{k=1}^{M-1} 2 |X_k|^2  (X_0 only sets the mean;
+   there is no Nyquist term because irfft zero-pads the M coefficients) *)
+Theorem variance_parseval : forall M X, (1 <= M)%nat -> length X = M ->
+  variance (series_of (2 * M) X) =
+  sumR (map (fun c : R * R => 2 * (fst c * fst c + snd c * snd c)) (tl X)).
+Proof. exact variance_parseval. Qed.
+
+(* the property: for a spectrum whose energy is in one direction column j (a 1D spectrum is the case of a
+   single column), non-negative, with non-negative direction step, the sample variance of every component
+   is  sum over the FFT bins k >= 1 of  df_k * dtheta * E_k * |factor_k|^2,  E_k the spectrum resampled
+   linearly to the FFT bins (zero outside its grid), df_k = frequency_step of the FFT grid = fs/nfft *)
+Theorem variance_of_timeseries : forall c fs n xp cols phases j t s,
+  (4 <= n)%nat -> 0 < fs ->
+  (j < length cols)%nat ->
+  length phases = (nfft n / 2)%nat ->
+  (forall row, In row phases -> (length cols <= length row)%nat) ->
+  (forall i x, i <> j -> (i < length cols)%nat -> interp0 xp (col_e (nth i cols (0, 0, []))) x = 0) ->
+  let '(th, dth, e) := nth j cols (0, 0, []) in
+  0 <= dth -> (forall x, 0 <= interp0 xp e x) ->
+  surface_timeseries c fs n xp cols phases = Some (t, s) ->
+  variance s = sumR (tl (energy_terms c xp (fft_freqs fs n) (frequency_step (fft_freqs fs n)) th dth e)).
+Proof. exact variance_of_timeseries. Qed.
+
+Theorem energy_term : forall c xp fg dfs th dth e k, (k < length fg)%nat -> (k < length dfs)%nat ->
+  nth k (energy_terms c xp fg dfs th dth e) 0 =
+  (nth k dfs 0 * dth) * interp0 xp e (nth k fg 0) * factor_abs2 c (2 * PI * nth k fg 0) (rad th).
+Proof. exact energy_terms_nth. Qed.
+
+(* a column of zeros carries no energy at any frequency (premise of the theorem above for 2D spectra with
+   energy in a single direction bin) *)
+Theorem zero_column : forall xp e x, (forall v, In v e -> v = 0) -> interp0 xp e x = 0.
+Proof. exact interp0_zeros. Qed.
+
+(* the resampling is linear in the spectrum *)
+Theorem resampling_linear : forall c xp fp x, interp0 xp (map (Rmult c) fp) x = c * interp0 xp fp x.
+Proof. exact interp0_scale. Qed.
